@@ -197,24 +197,26 @@ def expandBuffer (o added : Nat) : M Unit := do
     if s.isHeap then deleteBlock s.chars      -- if (is_heap()) delete[] m_chars;
     setObj o { s with chars := bigger, alloc := big }     -- m_chars = bigger; m_alloc = big_size;
 
+/-- the two statements every append ends with:
+    `std::char_traits<char>::move(m_chars + m_size, data, size);  m_size += size;` -/
+def storeAtEnd (o : Nat) (bytes : List Nat) : M Unit := do
+  let s ← getObj o
+  writeUnits s.chars s.size bytes
+  let s ← getObj o                            -- (the store may have gone into this object's own array)
+  setObj o { s with size := s.size + bytes.length }
+
 /-- `append(const char *data, size_t size)` with the source bytes given by value (the ST_AUTO_SIZE form
     measures `data` first; a null `data` has length 0) -/
 def append (o : Nat) (bytes : List Nat) : M Unit := do
   if bytes.length = 0 then return ()          -- if (size == 0) return *this;
   expandBuffer o bytes.length
-  let s ← getObj o
-  writeUnits s.chars s.size bytes             -- std::char_traits<char>::move(m_chars + m_size, data, size);
-  let s ← getObj o
-  setObj o { s with size := s.size + bytes.length }       -- m_size += size;
+  storeAtEnd o bytes
 
-/-- `append_char(char ch, size_t count)` -/
+/-- `append_char(char ch, size_t count)`: `assign(m_chars + m_size, count, ch); m_size += count;` -/
 def appendChar (o : Nat) (ch count : Nat) : M Unit := do
   if count = 0 then return ()
   expandBuffer o count
-  let s ← getObj o
-  writeUnits s.chars s.size (List.replicate count ch)     -- assign(m_chars + m_size, count, ch)
-  let s ← getObj o
-  setObj o { s with size := s.size + count }
+  storeAtEnd o (List.replicate count ch)
 
 /-- `truncate(size_t size)` : `if (size < m_size) m_size = size;` -/
 def truncate (o n : Nat) : M Unit := do
